@@ -58,7 +58,8 @@ def install(reg):
             ("view-extends", "self.buf.view.startswith(old(self.buf.view))"),
             ("not-completed-consumes-all", "implies(not self.completed, result == len(s))"),
         ],
-        loops={0: LoopSpec(invariants=loop_inv, variant="(0 if self.all_chunks_received else 1, len(s))")},
+        loops={0: LoopSpec(invariants=loop_inv, variant="(0 if self.all_chunks_received else 1, len(s))"),
+               1: LoopSpec(invariants=[("true", "True")])},
         modifies=["self.chunk_remainder", "self.validate_chunk_end", "self.control_line", "self.chunk_end", "self.all_chunks_received",
                   "self.trailer", "self.completed", "self.error", "self.buf.view"]))
     reg.add(FuncContract("receiver.ChunkedReceiver.__len__", returns=Int, ensures=[("len", "result == len(self.buf.view)")]))
